@@ -49,7 +49,7 @@ class Built:
         self.seed = seed
 
     def params(self, variant="default", beta=0.9):
-        return gen_params(self.P, self.shocks, self.seed, variant, beta)
+        return structural_zeros(self.fv, gen_params(self.P, self.shocks, self.seed, variant, beta))
 
 
 def lcm_solve(model, params, jit=True):
@@ -208,3 +208,20 @@ def family_members(k, features=None, base=None):
         seen.add(i)
         out.append((n, sum(1 for f in n if n[f] != family.BASE[f])))
     return out, invalid
+
+
+def structural_zeros(fv, params):
+    """h=excl: P(h'=1 | s, d) = 0 whenever next_s = clip(s+d, 0, 2) = 2 (the filter excludes (s=2, h=1))."""
+    if fv.get("h") != "excl" or "shocks" not in params:
+        return params
+    import jax.numpy as jnp
+
+    a = np.array(params["shocks"]["h"], dtype=np.float64)
+    for s_ in range(a.shape[0]):
+        for d_ in range(a.shape[1]):
+            if min(max(s_ + d_, 0), 2) == 2:
+                a[s_, d_] = [1.0, 0.0]
+    params = dict(params)
+    params["shocks"] = dict(params["shocks"])
+    params["shocks"]["h"] = jnp.asarray(a)
+    return params
